@@ -296,8 +296,8 @@ def run_one(args):
     env = dict(os.environ, PYTHONPATH=f"{w}/repo/src", PYTHONDONTWRITEBYTECODE="1")
     t0 = time.time()
     try:
-        p = subprocess.run(["/venv/bin/python", "-m", "pytest", "-x", "-q", "-p", "no:cacheprovider", "--timeout=120"],
-                           cwd=f"{w}/repo", env=env, capture_output=True, text=True, timeout=600)
+        p = subprocess.run(["/venv/bin/python", "-m", "pytest", "-x", "-q", "-p", "no:cacheprovider", "--timeout=30"],
+                           cwd=f"{w}/repo", env=env, capture_output=True, text=True, timeout=240)
         tail = p.stdout.strip().splitlines()[-1] if p.stdout.strip() else ""
         passed = p.returncode == 0
     except subprocess.TimeoutExpired:
@@ -307,8 +307,8 @@ def run_one(args):
     if not passed and os.environ.get("MS_RETRY"):
         # the suite sleeps in real time: under load a test can fail spuriously - a kill must be reproducible
         try:
-            p = subprocess.run(["/venv/bin/python", "-m", "pytest", "-x", "-q", "-p", "no:cacheprovider", "--timeout=120"],
-                               cwd=f"{w}/repo", env=env, capture_output=True, text=True, timeout=600)
+            p = subprocess.run(["/venv/bin/python", "-m", "pytest", "-x", "-q", "-p", "no:cacheprovider", "--timeout=30"],
+                               cwd=f"{w}/repo", env=env, capture_output=True, text=True, timeout=240)
             passed = p.returncode == 0
             res["tests_retry"] = p.stdout.strip().splitlines()[-1] if p.stdout.strip() else ""
         except subprocess.TimeoutExpired:
